@@ -17,7 +17,9 @@ def driver(scenarios, tag):
 
 def sig_of(s):
     return {"mode": s["mode"], "periodic": s["periodic"],
-            "reuse": any(t.get("op") == "resched" for t in s.get("plan", []))}
+            "reuse": any(t.get("op") == "resched" for t in s.get("plan", [])),
+            "entry_points": ",".join(sorted(set(x[0] for x in s.get("apis", []) + s.get("caller_names", []) + s.get("cancel_names", [])
+                                                if x[0] in "ijp"))) or "plain"}
 
 
 def nontrivial(s, rows):
@@ -150,8 +152,32 @@ def free_scenarios(n, base, rnd):
             cancels = [rnd.randint(-20000, -8000)]
         elif k < 0.4:
             ctx = rnd.choice([-1, 1]) * rnd.randint(1, 3000)
+        form = rnd.random()
+        cnames = ["c%d" % (j + 1) for j in range(len(callers))]
+        knames = ["k%d" % (j + 1) for j in range(len(cancels))]
+        if form < 0.3:
+            cnames = [["i1", "i2", "c3"][j] for j in range(len(callers))]
+        elif form < 0.45 and callers:
+            cnames[-1] = "i1"
+        if form > 0.5 and cancels:
+            knames = [rnd.choice(["j1", "p1"])]
         out.append({"sc": base + i, "mode": "free", "periodic": False, "hold": False, "plan": [],
-                    "delay_ms": rnd.randint(25, 40), "callers_us": callers, "cancels_us": cancels, "ctx_us": ctx})
+                    "delay_ms": rnd.randint(25, 40), "callers_us": callers, "cancels_us": cancels, "ctx_us": ctx,
+                    "caller_names": cnames, "cancel_names": knames})
+    return out
+
+
+# Entry points of the scheduler: the thread's name selects the call the driver makes (see c02Call in the driver).
+# The protocol steps are the same (the prefix form lists first: KList), so a schedule is turned into a schedule
+# for other entry points by renaming its threads.
+API_MAPS = [{}, {"c1": "i1", "c2": "i2"}, {"k1": "j1"}, {"k1": "p1"}, {"c1": "i1", "k1": "p1"}, {"c2": "i1", "k1": "j1"}]
+
+
+def with_apis(scs, shift=0):
+    out = []
+    for n, s in enumerate(scs):
+        m = API_MAPS[(n + shift) % len(API_MAPS)]
+        out.append(dict(s, plan=[dict(t, who=m.get(t["who"], t["who"])) for t in s["plan"]], apis=sorted(m.values())))
     return out
 
 
@@ -165,6 +191,7 @@ def run(tier):
     ]
     v.add_mc(vf.tlc_exhaustive(PID, "Scheduler", "MC_Scheduler.cfg", workers=4))
     v.add_mc(vf.tlc_exhaustive(PID, "Scheduler", "MC_Scheduler_periodic.cfg", workers=4))
+    v.add_mc(vf.tlc_exhaustive(PID, "Scheduler", "MC_Scheduler_prefix.cfg", workers=4))   # CancelJobs(prefix) next to CancelJob
     # sensitivity of the model: the pinned timer branch (named deviation GTDrop) must violate it
     for cfg, dev in (("MC_Scheduler_pinned.cfg", "GTDrop"), ("MC_Scheduler_byname.cfg", "DeleteByName"),
                      ("MC_Scheduler_cancelrace.cfg", "ClaimIgnoresCancel")):
@@ -181,6 +208,17 @@ def run(tier):
     periodic = directed_periodic(90000) + [dict(s, sc=s["sc"] + 100 * k) for k in (1, 2) for s in directed_periodic(90000)[8:]]
     periodic = periodic + gated_scenarios("Scen_Scheduler_periodic.cfg", True, n_p, 100000, rnd)
     free = free_scenarios(n_f, 200000, rnd)
+    # every entry point: the directed schedules once per form, the generated ones round-robin
+    base = directed_scenarios(1)
+    extra = []
+    for k in range(1, len(API_MAPS)):
+        m = API_MAPS[k]
+        for x in base:
+            if any(t["who"] in m for t in x["plan"]):
+                extra.append(dict(x, sc=x["sc"] + 300000 + 1000 * k,
+                                  plan=[dict(t, who=m.get(t["who"], t["who"])) for t in x["plan"]], apis=sorted(m.values())))
+    one_off = with_apis(one_off, vf.seed()) + extra
+    periodic = with_apis(periodic, vf.seed())
     vf.conformance(v, one_off + free, driver, "Trace_Scheduler", "Trace_Scheduler.cfg", sig_of, nontrivial,
                    dfs=True, chunk=1500)
     vf.conformance(v, periodic, driver, "Trace_Scheduler", "Trace_Scheduler_periodic.cfg", sig_of, nontrivial,
